@@ -19,7 +19,9 @@ RULE = ("records over words of pairwise distinct symbols (by parametricity one "
         "k, j in [-3n, 3n], a multiple m*n, and earlier real rotations. Each "
         "of r>>k, (r>>k)>>j, r>>(k+j), r>>(m*n), (r>>k)<<k, r<<k is compared with "
         "the oracle: word = rot(word, total), every feature (matched by label) "
-        "denotes the same letters per part and strand, every track value stays "
+        "reads the same letters on the same strands in the same order (a part may be "
+        "split into consecutive pieces; a part covering the whole circle may start "
+        "anywhere), every track value stays "
         "on its symbol, metadata carried over. Exhaustive: n<=6, all k in "
         "[-2n-1, 2n+1], every single simple/past-the-end location x 3 strands x "
         "{source, misc_feature}; all 2-part joins for n<=4. Non-trivial = total "
@@ -76,15 +78,18 @@ def _verify(what, r, spec, word0, denot0, total):
                 {k: list(v) for k, v in f.qualifiers.items()} != fs["quals"]:
             raise Violation("FEATURE-META", "%s: feature %r type/id/qualifiers changed" % (what, label))
         try:
-            d = rec.denote_feature(f, got)
+            flat = [x for part, whole in rec.reading(f, got) for x in part]
         except ValueError as e:
             raise Violation("FEATURE-LOCATION", "%s: feature %r has illegal location %s (%s)" % (
                 what, label, f.location, e))
-        if d != denot0[label]:
+        if not rec.same_reading(denot0[label], flat, n):
             raise Violation(
                 "FEATURE-DENOTE" + (":source" if fs["type"] == "source" else ""),
-                "%s on %r (now %r): feature %r %s at %s denotes %r, denoted %r before" % (
-                    what, word0, got, label, fs["type"], f.location, d, denot0[label]))
+                "%s on %r (now %r): feature %r %s at %s reads %r, it read %r before" % (
+                    what, word0, got, label, fs["type"], f.location,
+                    "".join("%s%s" % (c, {1: "+", -1: "-", None: ""}[s_]) for c, s_ in flat),
+                    [("".join(c for c, s_ in part), part[0][1] if part else None, whole)
+                     for part, whole in denot0[label]]))
     tracks = spec.get("tracks") or {}
     if set(r.letter_annotations) != set(tracks):
         raise Violation("TRACK", "%s: tracks %r != %r" % (what, sorted(r.letter_annotations), sorted(tracks)))
@@ -114,7 +119,7 @@ def check(spec, ctx):
     r = rec.build(spec)
     denot0 = {}
     for f in r.features:
-        denot0[f.qualifiers["label"][0]] = rec.denote_feature(f, word)
+        denot0[f.qualifiers["label"][0]] = rec.reading(f, word)
     total = 0
     for p in spec.get("pre") or []:
         r = sut(lambda: r >> p)
@@ -144,7 +149,7 @@ def check(spec, ctx):
         spec2 = copy.deepcopy(spec)
         spec2["feats"] = list(spec2.get("feats") or []) + [late]
         denot2 = dict(denot0)
-        denot2["late"] = rec.denote_feature(r.features[-1], dna.rot(word, total))
+        denot2["late"] = rec.reading(r.features[-1], dna.rot(word, total))
         r7 = sut(lambda: r >> k)
         _verify("r >> %d after adding a feature to r" % k, r7, spec2, word, denot2, total + k)
         r.features.pop()
